@@ -219,6 +219,79 @@ fn check_batch(out: &mut Out, v: Version, tree: &MerkleTree, leaves: &[Vec<u8>],
     }
 }
 
+/// Padding and interior positions opened as leaves: every node of the tree is known from the
+/// issued paths (element L of leaf i's path is node (L, (i >> L) ^ 1)). A trivial leaf value
+/// (empty, zeros) presented at the position of such a node, with the path that leads from that
+/// node to the root, must not recompute the root.
+fn opened_node_probes(out: &mut Out, v: Version, tree: &MerkleTree, leaves: &[Vec<u8>], b: &Built, history: &[Vec<Vec<u8>>]) {
+    let n = leaves.len();
+    let w = node_width(v, tree);
+    if n < 2 || w == 0 || !distinct(leaves) {
+        return;
+    }
+    let levels = b.paths[0].len() / w;
+    let cands: Vec<Vec<u8>> = vec![vec![], vec![0u8], vec![0u8; 4], vec![0u8; 32], vec![0u8; 64], vec![0u8; w], vec![0xffu8; w]];
+    // count of real nodes per level
+    let mut count = vec![n];
+    for l in 0..levels {
+        count.push((count[l] + 1) / 2);
+    }
+    for l in 0..levels {
+        // positions at level l whose sibling has a leaf below it: real nodes and the padding node
+        let width_l = count[l] + (count[l] % 2);
+        for pos in 0..width_l {
+            if pos >= n {
+                continue; // (the statement speaks of in-range indexes)
+            }
+            if l == 0 && pos < n {
+                continue; // real leaves are covered by the other probes
+            }
+            let sib = pos ^ 1;
+            // a leaf under the sibling (if the sibling is padding itself, take one under pos's parent)
+            let j = (sib << l).min(n - 1);
+            if (j >> l) != sib {
+                continue;
+            }
+            let pj = &b.paths[j];
+            if pj.len() < (l + 1) * w {
+                continue;
+            }
+            // node (l, sib) is the hash chain of leaf j up to level l; rather than recomputing it,
+            // take it from a path that holds it: element l of the path of a leaf under `pos`, or,
+            // for a padding position (no leaf below), recompute j's ancestor with the tree itself
+            let anc = {
+                // ancestor of j at level l = root_from_paths over the first l elements
+                tree.root_from_paths(j, &leaves[j], &pj[..l * w])
+            };
+            let mut forged_path = anc.clone();
+            forged_path.truncate(w.max(anc.len().min(w)));
+            if forged_path.len() != w {
+                continue; // (the root of a sub-path may be cut differently; skip shapes we cannot build)
+            }
+            forged_path.extend_from_slice(&pj[(l + 1) * w..]);
+            for c in &cands {
+                out.obs("binding_probes", 1);
+                out.obs("opened_node_probes", 1);
+                let r = catch_unwind(AssertUnwindSafe(|| tree.root_from_paths(pos, c, &forged_path)));
+                match r {
+                    Ok(got) if got == b.root => {
+                        out.violation(
+                            &format!("C04 binding trivial-leaf-accepted-at-node-position version={}", vname(v)),
+                            &format!("n={}: the leaf {:?} (never in the batch) at in-range index {} with the {}-element path from node (level {}, position {}) to the root recomputes the signed root", n, c, pos, forged_path.len() / w, l, pos),
+                            replay_of(v, history, "opened-node"),
+                        );
+                        return;
+                    }
+                    Ok(_) => {}
+                    Err(_) => {
+                        take_panics();
+                    }
+                }
+            }
+        }
+    }
+}
+
 /// node width as the tree itself uses it: length of a 2-leaf tree's path
 fn node_width(v: Version, _t: &MerkleTree) -> usize {
     let mut t = MerkleTree::new(v);
@@ -258,6 +331,9 @@ fn run_history(out: &mut Out, v: Version, sizes: &[usize], class: LeafClass, rng
                 }
             }
             check_batch(out, v, &reused, &leaves, &b, rng, &cname, &history, full_positions);
+            if n <= 24 || rng.chance(1, 16) {
+                opened_node_probes(out, v, &reused, &leaves, &b, &history);
+            }
             // informational: agreement with the spec-derived tree (C02 carries that verdict)
             let p = proto_of(v);
             let lh: Vec<Vec<u8>> = leaves.iter().map(|l| crypto::hash_leaf(p, l)).collect();
